@@ -279,13 +279,46 @@ def run_unit(u, wd, tier):
             extra += ["--property", nm]
     cmd = cbmc_cmd(u, gb, extra)
     r["cmd"] = " ".join(cmd[:1] + ["<unit>.gb"] + cmd[2:])
-    rc, out, err, t = run(cmd, u.timeout, u.mem_gb)
-    r["wall_s"] = round(time.time() - t0, 2)
-    if rc == -999:
-        r["status"] = "undecided"
-        r["reason"] = "timeout after %ds" % u.timeout
-        return r
-    parsed = parse_cbmc_json(out)
+    split_timeouts = []
+    if u.split and not u.only:
+        # one solver query per obligation, run concurrently (float-heavy units: a hard obligation no longer starves the others)
+        rc, out, err, t = run(cbmc_cmd(u, gb, ["--show-properties"]), 300, u.mem_gb)
+        names = []
+        try:
+            for item in json.loads(out):
+                if isinstance(item, dict) and "properties" in item:
+                    names = [pr.get("name") for pr in item["properties"]]
+        except Exception:
+            names = []
+        if not names:
+            r["status"] = "undecided"
+            r["reason"] = "could not list the obligations for a split run"
+            return r
+        def one(nm):
+            return nm, run(cbmc_cmd(u, gb, ["--property", nm]), u.timeout, u.mem_gb)
+        merged = {"results": [], "messages": [], "status": None}
+        with ThreadPoolExecutor(max_workers=int(u.split) if int(u.split) > 1 else 4) as ex2:
+            for nm, (rc2, out2, err2, t2) in ex2.map(one, names):
+                if rc2 == -999:
+                    split_timeouts.append(nm)
+                    continue
+                p2 = parse_cbmc_json(out2)
+                if p2 is None:
+                    split_timeouts.append(nm)
+                    continue
+                merged["results"] += [x for x in p2["results"] if x.get("property") == nm]
+                merged["messages"] += p2["messages"]
+        parsed = merged
+        rc, out, err = 0, "", ""
+        r["wall_s"] = round(time.time() - t0, 2)
+    else:
+        rc, out, err, t = run(cmd, u.timeout, u.mem_gb)
+        r["wall_s"] = round(time.time() - t0, 2)
+        if rc == -999:
+            r["status"] = "undecided"
+            r["reason"] = "timeout after %ds" % u.timeout
+            return r
+        parsed = parse_cbmc_json(out)
     if parsed is None or (not parsed["results"] and parsed["status"] is None):
         r["status"] = "undecided"
         msg = ""
@@ -341,9 +374,9 @@ def run_unit(u, wd, tier):
         r["status"] = "violated"
         r["_gb"] = str(gb)
         return r
-    if unknown:
+    if unknown or split_timeouts:
         r["status"] = "undecided"
-        r["reason"] = "obligations without verdict: %s" % unknown[:3]
+        r["reason"] = "obligations without verdict: %s" % ((unknown + ["%s (timeout %ds)" % (x, u.timeout) for x in split_timeouts])[:4],)
         return r
     # vacuity guards
     if not u.no_canary:
